@@ -38,6 +38,7 @@ type Knobs struct {
 	// Probabilities in percent
 	PAvail      int // param drawn from keys visible at the function's scope
 	PFresh      int // result drawn from keys not yet provided in the target scope
+	PShadow     int // result key drawn from keys that an ancestor scope already provides (shadowing)
 	POpt        int // single param is optional
 	PNamed      int // result is named
 	PGroupRes   int // result is a group member
@@ -647,7 +648,21 @@ func (g *gen) genProvide(s int) Op {
 					fresh = append(fresh, k)
 				}
 			}
-			if len(fresh) > 0 && g.pct(g.k.PFresh, lbl+"fresh") {
+			var shadow []MKey
+			if g.k.PShadow > 0 && home != 0 {
+				for _, a := range g.m.Anc(home)[1:] {
+					for _, c := range g.m.Scopes[a].Ctors {
+						for _, k := range c.Keys() {
+							if k.Group == "" && !usedHere[k] {
+								shadow = append(shadow, k)
+							}
+						}
+					}
+				}
+			}
+			if len(shadow) > 0 && g.pct(g.k.PShadow, lbl+"shadow") {
+				l.key = shadow[g.pickLate(len(shadow), lbl+"shk")]
+			} else if len(fresh) > 0 && g.pct(g.k.PFresh, lbl+"fresh") {
 				l.key = fresh[g.pick(len(fresh), lbl+"fk")]
 			} else {
 				l.key = MKey{T: g.randType(lbl + "t"), Name: g.randName(lbl + "n")}
@@ -1102,6 +1117,9 @@ func (g *gen) removeDeco(mf *MFn) {
 func (g *gen) genInvoke(s int) Op {
 	f := g.newFn()
 	npar := 1 + g.pick(g.k.MaxParams, "npar")
+	if g.pct(6, "noparams") {
+		npar = 0 // func() / func() error
+	}
 	ipl := g.drawParamLeaves(s, npar, g.k.PInvokeAll, true)
 	f.P = g.encodeParams(ipl)
 	if g.pct(g.k.PErr, "err?") {
@@ -1230,6 +1248,10 @@ func GenCase(t *rapid.T, k Knobs) *Case {
 				parent = 0
 			}
 			name := fmt.Sprintf("s%d", g.nscope)
+			if g.nscope > 1 && g.pct(12, "dupname") {
+				// scope names need not be unique, not even among siblings
+				name = fmt.Sprintf("s%d", 1+g.pick(g.nscope-1, "dupnamek"))
+			}
 			g.m.AddScope(parent, name)
 			g.nscope++
 			add(Op{K: OpScope, S: parent, Name: name})
